@@ -18,6 +18,8 @@ What is extracted (every run, from the working tree):
     Value/Array build on RawValue/RawArray and default to a recursive lock; `with wrapper:` and
     get_lock() use the wrapper's own lock; every branch of synchronized() is `Wrapper(obj, lock, ctx)`
     (emitted as two counts, proved equal); a wrapper pickles as (synchronized, (obj, lock)).
+  * the test under which SynchronizedBase.__init__ keeps the lock it is given (`if lock:` = by truth value):
+    emitted as wrapper_lock_test, a constructor of SharedMem.lock_test; billiard's lock classes define no __bool__/__len__.
 """
 import ast
 import os
@@ -163,6 +165,33 @@ def rebuild_effects(fn):
     return out
 
 
+def wrapper_lock_test(fn):
+    """SynchronizedBase.__init__(self, obj, lock=None, ctx=None):
+         self._obj = obj
+         if <test on lock>: self._lock = lock
+         else: ctx = ctx or get_context(force=True); self._lock = ctx.RLock()
+         self.acquire = self._lock.acquire; self.release = self._lock.release
+    -> which test guards keeping the caller's lock: `lock` (truth value) / `lock is not None` / none at all"""
+    require([a.arg for a in fn.args.args] == ['self', 'obj', 'lock', 'ctx'], 'SynchronizedBase.__init__ signature changed')
+    body = body_no_doc(fn)
+    txt = [ast.unparse(s) for s in body]
+    tail = ['self.acquire = self._lock.acquire', 'self.release = self._lock.release']
+    require(txt[:1] == ['self._obj = obj'] and txt[-2:] == tail and len(body) == 4,
+            'SynchronizedBase.__init__ is no longer `self._obj = obj; <keep or make the lock>; bind acquire/release`: %r' % txt)
+    st = body[1]
+    if txt[1] == 'self._lock = lock':
+        return 'LockAlways'
+    require(isinstance(st, ast.If) and [ast.unparse(x) for x in st.body] == ['self._lock = lock']
+            and [ast.unparse(x) for x in st.orelse] == ['ctx = ctx or get_context(force=True)', 'self._lock = ctx.RLock()'],
+            'SynchronizedBase.__init__: the statement deciding the wrapper\'s lock changed: `%s`' % txt[1].split('\n')[0])
+    test = ast.unparse(st.test)
+    if test == 'lock':
+        return 'LockTruthy'
+    if test == 'lock is not None':
+        return 'LockNotNone'
+    raise TranslateError('%s: SynchronizedBase.__init__ keeps the given lock under the unmodelled test `%s`' % (F, test))
+
+
 def require(cond, msg):
     if not cond:
         raise TranslateError('%s: %s' % (F, msg))
@@ -237,6 +266,16 @@ def gen_sharedmem(repo):
     init_as = [ast.unparse(s) for s in ast.walk(find('SynchronizedBase.__init__')) if isinstance(s, ast.Assign)]
     require('self.acquire = self._lock.acquire' in init_as and 'self.release = self._lock.release' in init_as
             and 'self._lock = lock' in init_as, 'SynchronizedBase.__init__ changed')
+    lock_test = wrapper_lock_test(find('SynchronizedBase.__init__'))
+    # the lock a wrapper ends up with (a lock that passed the test, or ctx.RLock()) must itself pass the test
+    # when the wrapper is rebuilt from (obj, self._lock): billiard's lock classes have no truth-value hooks
+    stree = ast.parse(open(os.path.join(repo, 'billiard/synchronize.py')).read())
+    for c in stree.body:
+        if isinstance(c, ast.ClassDef) and c.name in ('SemLock', 'Lock', 'RLock'):
+            hooks = [f.name for f in c.body if isinstance(f, ast.FunctionDef) and f.name in ('__bool__', '__len__', '__nonzero__')]
+            require(not hooks, 'billiard/synchronize.py: class %s defines %s: a lock may be false in `if lock:`' % (c.name, hooks))
+    require({'SemLock', 'Lock', 'RLock'} <= {c.name for c in stree.body if isinstance(c, ast.ClassDef)},
+            'billiard/synchronize.py no longer defines SemLock/Lock/RLock')
 
     # ---- synchronized(): every branch hands the caller's lock and ctx to the wrapper class
     syn = find('synchronized')
@@ -287,6 +326,9 @@ Definition setitem_prog : list instr := %s.
 Definition incr_prog : list instr := [Acq] ++ getter_prog ++ setter_prog ++ [Rel].
 Definition incr_unlocked_prog : list instr := getter_prog ++ setter_prog.
 
+(* SynchronizedBase.__init__: the test under which the wrapper keeps the lock it is given *)
+Definition wrapper_lock_test : lock_test := %s.
+
 (* structural facts checked by the generator (it fails if one does not hold) *)
 Definition new_value_allocates_sizeof_through_bufferwrapper : bool := true.
 Definition bufferwrapper_keeps_block_size_and_frees_in_finaliser : bool := true.
@@ -300,7 +342,7 @@ Definition value_and_array_hand_lock_and_ctx_to_synchronized : bool := true.
    exactly `Wrapper(obj, lock, ctx)` *)
 Definition synchronized_branches : nat := %d.
 Definition synchronized_branches_passing_lock_and_ctx : nat := %d.
-''' % (cl(new_value), cl(rebuild), cl(rawvalue), cl(arr_n), cl(arr_init), cl(getter), cl(setter), cl(item_get), cl(item_set), n_ret, n_pass)
+''' % (cl(new_value), cl(rebuild), cl(rawvalue), cl(arr_n), cl(arr_init), cl(getter), cl(setter), cl(item_get), cl(item_set), lock_test, n_ret, n_pass)
 
 
 def _one_assign(tree, name):
